@@ -387,6 +387,10 @@ def mutants(db: DB):
     eq, col, gr, pt = ("teaal/trans/equation.py", "teaal/trans/collector.py", "teaal/trans/graphics.py",
                        "teaal/trans/partitioner.py")
     return [
+        M("timestamps created only when some rank is mapped to space", "teaal/trans/graphics.py",
+          "            if spacetime.get_slip():\n                assign = SAssign(AVar(\"timestamps\"), EDict({}))",
+          "            if spacetime.get_slip() and len(spacetime.get_space()) > 0:\n                assign = SAssign(AVar(\"timestamps\"), EDict({}))",
+          "N2"),
         M("binder renamed: inputs_", eq, "return SAssign(AVar(\"inputs_\" + rank.lower()), method_call)",
           "return SAssign(AVar(\"input_\" + rank.lower()), method_call)", "N1"),
         M("reader renamed: _start", eq, "interval = ETuple([EVar(rank.lower() + \"_start\"),",
